@@ -343,7 +343,8 @@ def format_value(interp, v, spec=""):
         if spec:
             interp.py_raise(TypeError, "unsupported format string passed to %s.__format__" % v.cls.__name__)
         return interp.py_str(v)
-    if isinstance(v, (AnyOf, SText)):
+    from .values import AbstractValue
+    if isinstance(v, (AnyOf, SText, AbstractValue)):
         return OPAQUE
     if isinstance(v, sym.SFloat):
         return interp.native(format, v, spec)
@@ -934,6 +935,9 @@ def b_bytearray(interp, *args, **kwargs):
 def b_list(interp, *args):
     if not args:
         return interp.fresh([])
+    from .values import AbstractValue
+    if isinstance(args[0], AbstractValue):
+        return args[0].py_list(interp)
     return interp.fresh(list(interp.iterate(args[0])))
 
 
